@@ -487,16 +487,24 @@ class RangeNode(SyntaxNode):
                                           boost=self.boost)
                     if q is not None:
                         return attach(q, self)
-                except QueryParserError:
+                except Exception:
+                    # Like QueryParser.term_query(), report anything the
+                    # field raises about the text in-band (DATETIME raises
+                    # ValueError/Exception for unparseable dates)
                     e = sys.exc_info()[1]
                     return attach(query.error_query(e), self)
 
-            if start:
-                start = get_single_text(field, start, tokenize=False,
-                                        removestops=False)
-            if end:
-                end = get_single_text(field, end, tokenize=False,
-                                      removestops=False)
+            try:
+                if start:
+                    start = get_single_text(field, start, tokenize=False,
+                                            removestops=False)
+                if end:
+                    end = get_single_text(field, end, tokenize=False,
+                                          removestops=False)
+            except Exception:
+                # The field can't analyze text (no analyzer/no format)
+                e = sys.exc_info()[1]
+                return attach(query.error_query(e), self)
 
         q = query.TermRange(fieldname, start, end, self.startexcl,
                             self.endexcl, boost=self.boost)
